@@ -35,9 +35,9 @@ LEAF = {
     'double': ('xs:double', ('1e3', '-0.5', 'INF')),
     'date': ('xs:date', ('2020-02-29', '2000-01-01Z', '1999-12-31+02:00')),
     'dateTime': ('xs:dateTime', ('2020-02-29T12:00:00', '2000-01-01T00:00:00Z', '1999-12-31T23:59:59.5+02:00')),
-    'ints': ('t:ints', ('1 2', '', '5')),
+    'ints': ('t:ints', ('1 0', '', '5')),
     'toks': ('t:toks', ('a b', 'c', '')),
-    'decs': ('t:decs', ('1.0 2.50', '', '3')),
+    'decs': ('t:decs', ('1.0 0', '', '3')),
 }
 LIST_ITEM = {'ints': 'int', 'toks': 'string', 'decs': 'decimal'}
 SIMPLE_TYPES = (
@@ -165,7 +165,7 @@ def _templates():
                         attrs=[('id', 'int', False)]))
     add('lists', C(seq(el('l'), el('m', *OPT), el('n', *STAR)),
                    {'l': K('l', S('ints')), 'm': K('m', S('toks')), 'n': K('n', S('decs'))}))
-    add('listgroup', C(seq(cho(el('l'), mn=1, mx=3), el('b', *OPT)), {'l': K('l', S('ints')), 'b': b_i}))
+    add('listgroup', C(cho(seq(el('l')), mn=1, mx=3), {'l': K('l', S('ints'))}))
     add('listattr', C(seq(el('a', *OPT)), {'a': a_s}, attrs=[('v', 'ints', False), ('w', 'toks', True)]))
     add('unqualified', C(seq(el('a'), el('b', *STAR)), {'a': K('a', S('string'), ''), 'b': K('b', S('int'), '')}))
     add('unqualnested', C(seq(el('p', *PLUS)), {'p': K('p', C(seq(el('a'), el('b', *OPT)), {
